@@ -155,3 +155,15 @@ PROPS["C03"] = {
         "tests": [T("TestC03Detection", {"checks": 40, "shards": 10}, {"checks": 400, "shards": 16})],
     }],
 }
+
+PROPS["C13"] = {
+    "level": "exploration",
+    "assumptions": ["verifkit/gram's line model (lines.go) defines which entries cannot become probes and which causes an error may state; a line with two faults may be reported with either",
+                    "in addresses-x-ports mode a bad line may be reported once per port pass (documented don't-care); ports are distinct so passes are identifiable",
+                    "an ill-typed port field in addresses mode and raw non-UTF-8 bytes are not generated (the statement leaves them open)"],
+    "units": [{
+        "pkg": "command",
+        "tests": [T("TestC13Stack", {"checks": 4000, "shards": 4}, {"checks": 40000, "shards": 16}),
+                  T("TestC13Commands", {"checks": 150, "shards": 8}, {"checks": 2000, "shards": 16})],
+    }],
+}
